@@ -52,6 +52,11 @@ _CMP = {
 
 _GEN_CACHE = {}
 
+import os as _os
+
+# statement coverage of the interpreted source (diagnostic only; enabled by VERIF_COVER=1, see tools/coverage.py)
+COVER = set() if _os.environ.get("VERIF_COVER") else None
+
 
 class _OsStub:
     """`os` as far as the library uses it: an empty environment (every setting takes its default)"""
@@ -166,6 +171,8 @@ class Evaluator:
             self.stmt(s, env, fi)
 
     def stmt(self, s, env, fi):
+        if COVER is not None:
+            COVER.add((fi.module.name, s.lineno))
         self.steps += 1
         if self.steps > self.max_steps:
             raise Unsupported("step budget exceeded")
